@@ -563,6 +563,14 @@ def stepProvCore (d : ProvDrv) (a : Acc) (s : Step) : ProvDrv × Acc :=
       -- C12: an id the provider never issued (not 0, not in the id -> height map) gets an error ack
       let issued := p.vscId == 0 || (parsePairs (before.g.get "vsc2h")).any (·.1 == p.vscId)
       let a := a.spec s.lineNo "C12.unknown-id-error" (issued || ack == "error") s!"vsc={p.vscId} ack={ack}"
+      -- C12: a slash executed for this packet uses the height recorded for the packet's id (for id 0 the
+      -- height at which the consumer's channel was opened), nothing else
+      let mappedI : Option Nat := match st.chan2c.find? (·.1 == s.op.get "ch") with
+        | some e => mappedInfractionHeight (st.get e.2) (parsePairs (before.g.get "vsc2h")) p.vscId
+        | none => none
+      let a := a.spec s.lineNo "C12.slash-height-is-mapped"
+        (implEff.all fun e => match e with | .slash _ h _ _ => mappedI == some h | _ => true)
+        s!"vsc={p.vscId} mapped={mappedI} effects={(s.ob "r").get "effects"}"
       ({ impl := after }, compareState a s.lineNo r.1 after lifecycleFields lifecycleGlobals)
   | "dvote" =>
     let c := s.op.get "c"
